@@ -3,6 +3,10 @@
 import json, os
 V = os.path.dirname(os.path.abspath(__file__))
 CHECKS = {
+ "C02": dict(
+  text="Randomised search (rapid) over model programs: specs of 4-9 definitions from the documented schema fragment are generated with the swagger binary built from the tree and compiled; every definition receives valid documents plus every single-position boundary mutation of them; oracle: generated decode+Validate verdict equals the go-openapi/validate schema validator's verdict (cross-checked by a self-written validator) modulo the documented tolerances. Six root-cause classes of genuine divergences are listed known findings; one was repaired.",
+  note="Trusts go-openapi/validate as the reference; tolerances T1-T3 are encoded as stated in the evidence assumptions; programs that do not build are C01's subject.",
+  tech="property-based testing (rapid): program generation + differential testing of generated validators against a reference validator"),
  "C12": dict(
   text="Randomised search (rapid) over generated valid specs: identity under four re-serialisations (same, YAML, shuffled keys, shuffled parameter/enum lists) and totality over edited/unrelated pairs; any panic, error, non-empty self-diff, non-zero exit or 60 s overrun is a violation. Sampling, not exhaustive; thorough adds a native coverage-guided fuzz campaign on the same property.",
   note="Trusts go-openapi/validate.Spec as the definition of a valid spec and go-openapi/loads for loading; process-fatal crashes are caught by the driver's crash guard.",
